@@ -17,8 +17,8 @@ import time
 VERIF = os.path.dirname(os.path.dirname(os.path.abspath(__file__)))
 REPO = os.environ.get("VERIF_REPO", "/repo")
 SPEC = os.path.join(VERIF, "spec")
-EVID = os.path.join(VERIF, "evidence")
-REPLAYS = os.path.join(VERIF, "replays")
+EVID = os.environ.get("VERIF_EVID", os.path.join(VERIF, "evidence"))
+REPLAYS = os.environ.get("VERIF_REPLAYS", os.path.join(VERIF, "replays"))
 CACHE = os.path.join(VERIF, "cache")
 PY = "/venv/bin/python"
 CASES = os.path.join(REPO, "andes", "cases")
@@ -77,9 +77,10 @@ def pycode_path(build=True):
     try:
         if os.path.exists(done):
             return path
-        for old in os.listdir(CACHE):
-            if old.startswith("pycode-") and old != "pycode-" + key:
-                shutil.rmtree(os.path.join(CACHE, old), ignore_errors=True)
+        olds = sorted((o for o in os.listdir(CACHE) if o.startswith("pycode-") and o != "pycode-" + key),
+                      key=lambda o: os.path.getmtime(os.path.join(CACHE, o)))
+        for old in olds[:-4]:      # keep a few recent keys (concurrent runs on other trees)
+            shutil.rmtree(os.path.join(CACHE, old), ignore_errors=True)
         shutil.rmtree(path, ignore_errors=True)
         os.makedirs(path)
         code = (
